@@ -251,3 +251,13 @@ P['C07'] = dict(
     dict(name='H07G', src='C03_global.cpp', covers=['placeGlobal ended', 'end'], defines={'VCAP': 24, 'MAXSTEPS': 1, 'NDEBUG': None}, cfg=dict(fp='havoc', time_budget=40), split=4, ir_srcs=ALL_IR, native_srcs=ALL_IR, native_flags=['-llemon']),
     dict(name='H07L', src='C01_legalize.cpp', covers=['legalize ended', 'end'], defines=dict(C01_BASE, NC=1, YCHOICE=None, POLCHOICES=2, NDEBUG=None), cfg=dict(fp='havoc'), ir_srcs=ALL_IR, native_srcs=ALL_IR, native_flags=['-llemon']),
   ])
+
+P['C18'] = dict(
+  design_ref='DESIGN.md section 3 C18',
+  level_text='(F) Frame: expandCellsToDensity and expandCellsByFactor executed with every field of the circuit except the widths of movable cells write-protected and all float values unconstrained: no other location is written on any path, no error is raised; public getters compared afterwards.',
+  text=dict(bounds=dict(quick='3 cells (2 movable, 1 fixed at a symbolic position), 4 rows, targets/margins/caps symbolic', thorough='same'),
+            outside='computeCellExpansion factors (harness H18C kept in the source: neither the linear error model nor exact z3 floating point closes it in the budget); the numeric claims (never narrower, utilisation below target/cap, within one cell height of target x area) need bit-exact double arithmetic: declined - the linear error model cannot exclude an off-by-one in the truncation and exact z3 floating point does not finish'),
+  assumptions=STD_ASSUME + [BOOST_ASSUME],
+  harnesses=[
+    dict(name='H18F', src='C18_expand.cpp', covers=['end'], defines={'VCAP': 8, 'H18F': None}, cfg=dict(fp='havoc', time_budget=60, loop_cap=8), split=2, ir_srcs=ALL_IR, native_srcs=ALL_IR, native_flags=['-llemon']),
+  ])
